@@ -66,12 +66,21 @@ fn apply_op(mut t: AffTree<2>, op: &Op) -> AffTree<2> {
             t.apply_func(a);
             t
         }
+        // every third tree size goes through the variant with the progress visitor (same result, other code path)
         Op::Compose(true, g) => {
-            t.compose::<true, false>(g);
+            if t.len() % 3 == 0 {
+                t.compose::<true, true>(g);
+            } else {
+                t.compose::<true, false>(g);
+            }
             t
         }
         Op::Compose(false, g) => {
-            t.compose::<false, false>(g);
+            if t.len() % 3 == 0 {
+                t.compose::<false, true>(g);
+            } else {
+                t.compose::<false, false>(g);
+            }
             t
         }
         Op::Elim => {
